@@ -430,6 +430,10 @@ func newNetworkProvider(c client.Client, con *TrafficRoutingContext, sService, c
 }
 
 func (m *Manager) createCanaryService(c *TrafficRoutingContext, cService string, spec corev1.ServiceSpec) (*corev1.Service, error) {
+	// a Service without selector (manually managed Endpoints, ExternalName) cannot be narrowed to a revision
+	if spec.Selector == nil {
+		return nil, fmt.Errorf("stable service of canary service(%s) has no selector, cannot generate the canary service", cService)
+	}
 	canaryService := &corev1.Service{
 		ObjectMeta: metav1.ObjectMeta{
 			Namespace:       c.Namespace,
